@@ -22,6 +22,10 @@ class Abort(BaseException):
     """Unwinds program threads when an execution is abandoned (deadlock / harness error)."""
 
 
+class WouldBlockForever(RuntimeError):
+    """Raised (instead of hanging) when the single harness thread would wait on a shim primitive."""
+
+
 class Deadlock(Exception):
     def __init__(self, info):
         super().__init__(str(info))
@@ -194,6 +198,10 @@ class SLock:
         s = cur()
         t = s.me() if s else None
         if t is None:
+            # outside an owned execution there is exactly one thread: a lock that is already held can
+            # never be released by anybody else, so blocking here would be for ever
+            if self.owner == "main":
+                raise WouldBlockForever("acquire of a lock the only thread already holds")
             self.owner = "main"
             return True
         s.yield_point(("lock.acquire", id(self)))
@@ -268,7 +276,7 @@ class SCondition:
         s = cur()
         t = s.me() if s else None
         if t is None:
-            raise RuntimeError("condition wait outside a scheduled execution would block forever")
+            raise WouldBlockForever("condition wait with no other thread that could notify")
         self.lock.release()
         self.waiters.append(t)
         t.pending = ("cond.wait", id(self))
@@ -312,8 +320,9 @@ def shimmed_primitives(mp_mode=False):
     Only used around the store constructor, on the (single) harness thread."""
     saved = (threading.Lock, threading.Condition, multiprocessing.Lock, multiprocessing.Condition,
              multiprocessing.Manager, os.environ.get("USE_MULTIPROCESSING"), threading.RLock, multiprocessing.RLock)
-    threading.Lock, threading.Condition, threading.RLock = SLock, SCondition, SRLock
-    multiprocessing.Lock, multiprocessing.Condition, multiprocessing.RLock = SLock, SCondition, SRLock
+    # (RLock is deliberately NOT shimmed: logging creates RLocks whenever a handler is made)
+    threading.Lock, threading.Condition = SLock, SCondition
+    multiprocessing.Lock, multiprocessing.Condition = SLock, SCondition
     multiprocessing.Manager = lambda *a, **k: _SManager()
     if mp_mode:
         os.environ["USE_MULTIPROCESSING"] = "True"
@@ -324,7 +333,6 @@ def shimmed_primitives(mp_mode=False):
     finally:
         (threading.Lock, threading.Condition, multiprocessing.Lock, multiprocessing.Condition,
          multiprocessing.Manager) = saved[:5]
-        threading.RLock, multiprocessing.RLock = saved[6], saved[7]
         if saved[5] is None:
             os.environ.pop("USE_MULTIPROCESSING", None)
         else:
